@@ -327,6 +327,72 @@ func streamOps(o *Out, r *rand.Rand, n int, thorough bool) {
 			}
 		}
 	}
+	// integers of the other Go kinds (host values, bytes of a []byte, struct fields) against floats and strings, both orders: float64
+	// as soon as one operand is a float, concatenation with a string - whichever side the integer is on
+	{
+		ints := []struct {
+			v interface{}
+			n int64
+		}{{uint8(1), 1}, {uint8(200), 200}, {uint16(3), 3}, {uint32(7), 7}, {uint64(9), 9}, {uint(5), 5}, {int8(-4), -4}, {int16(6), 6}, {int32(-8), -8}, {int(11), 11}}
+		for _, iv := range ints {
+			for _, f := range []float64{1.5, -0.25, 2} {
+				for _, op := range []string{"+", "-", "*", "<", "<=", ">", ">="} {
+					for order := 0; order < 2; order++ {
+						x, y := float64(iv.n), f
+						text := "a " + op + " b"
+						if order == 1 {
+							x, y = f, float64(iv.n)
+							text = "b " + op + " a"
+						}
+						var want interface{}
+						switch op {
+						case "+":
+							want = x + y
+						case "-":
+							want = x - y
+						case "*":
+							want = x * y
+						case "<":
+							want = x < y
+						case "<=":
+							want = x <= y
+						case ">":
+							want = x > y
+						case ">=":
+							want = x >= y
+						}
+						for _, form := range []string{text, strings.NewReplacer("a", "xs[0]").Replace(text)} {
+							out := runScript(form, map[string]interface{}{"a": iv.v, "b": f, "xs": []interface{}{iv.v}}, nil)
+							o.Sum.Evaluations++
+							o.Sum.Hist["other-integer-kind-against-float"]++
+							if out.panicked || out.err != nil || !sameValue(want, out.val) || fmt.Sprintf("%T", want) != fmt.Sprintf("%T", out.val) {
+								o.Fail(Failure{Oracle: "float-as-soon-as-one-operand-is", Key: "integer-kind-against-float:" + op, Input: fmt.Sprintf("%s with a = xs[0] = %T(%v), b = %v", form, iv.v, iv.v, f),
+									Detail: fmt.Sprintf("in float64 the result is %v; the interpreter gave %v (%T) err %v", want, out.val, out.val, out.err)})
+							}
+						}
+					}
+				}
+			}
+			for order := 0; order < 2; order++ {
+				text, want := "a + s", fmt.Sprint(iv.n)+"x"
+				if order == 1 {
+					text, want = "s + a", "x"+fmt.Sprint(iv.n)
+				}
+				out := runScript(text, map[string]interface{}{"a": iv.v, "s": "x"}, nil)
+				o.Sum.Evaluations++
+				if out.panicked || out.err != nil || out.val != want {
+					o.Fail(Failure{Oracle: "string-concat", Key: "integer-kind-concat", Input: fmt.Sprintf("%s with a = %T(%v), s = \"x\"", text, iv.v, iv.v),
+						Detail: fmt.Sprintf("a number and a string concatenate to %q; the interpreter gave %v (%T) err %v", want, out.val, out.val, out.err)})
+				}
+			}
+		}
+		out := runScript("bs = toByteSlice(\"A\")\n[bs[0] + 0.5, 0.5 + bs[0], bs[0] * 1.5, bs[0] - 0.5]", nil, coreEnv)
+		o.Sum.Evaluations++
+		if out.panicked || out.err != nil || fmt.Sprint(out.val) != "[65.5 65.5 97.5 64.5]" {
+			o.Fail(Failure{Oracle: "float-as-soon-as-one-operand-is", Key: "integer-kind-against-float:byte", Input: "bs = toByteSlice(\"A\"); [bs[0] + 0.5, 0.5 + bs[0], bs[0] * 1.5, bs[0] - 0.5]",
+				Detail: fmt.Sprintf("in float64: [65.5 65.5 97.5 64.5]; the interpreter gave %v (err %v)", out.val, out.err)})
+		}
+	}
 	for _, op := range unOps {
 		for _, a := range vals.All() {
 			for m := 0; m < 3; m++ {
